@@ -15,7 +15,7 @@ Work ONLY inside the scratch git worktree {wt} (a checkout of the project). Do N
 Environment (sealed sandbox, no network). In EVERY shell call that uses go, first run:
   export GOFLAGS=-mod=mod GOPROXY=off
 (do NOT set GOSUMDB or GOTOOLCHAIN). Run the existing suite with:  cd {wt} && go test -vet=off -count=1 ./...   (takes about 1-2 minutes; all packages must stay 'ok').
-Files named verif_hooks.go (build tag 'verif') are verification hooks - leave them alone, and do not use the 'verif' build tag.
+Files named verif_hooks.go (build tag 'verif') are verification hooks - leave them alone, and do not use the 'verif' build tag. Do NOT use `git stash` (the stash is shared with other worktrees of this repository and other people work in those); save a change with `git diff > file` and undo it with `git checkout -- .`.
 
 THE PROPERTY ({pid}: {p['title']}):
 {p['statement']}
